@@ -118,3 +118,73 @@ theorem run_inv (es : List Ev) : ∀ (s : State) (p : Pcs), Inv s → Inv (run s
   | cons e es ih => intro s p h; exact ih _ _ (step_inv e h)
 
 end Feox.Conc.Reserve
+
+/-! ### two ways to get the reservation loop wrong (witnesses)
+
+`Feox.Conc.Reserve` proves that the loop as written — load, check `cur + amount ≤ limit`,
+compare-exchange against the value just checked, on failure start again from the observed value
+*and check again* — never lets usage exceed the limit.  Both ingredients are needed: -/
+namespace Feox.Conc.Reserve.Broken
+
+inductive BPc
+  | idle
+  | first (amount cur : Nat)       -- loaded, limit not yet checked against `cur`
+  | rebased (amount cur : Nat)     -- lost a compare-exchange and took the observed value over
+  deriving DecidableEq, Repr
+
+structure B where
+  usage : Nat
+  limit : Nat
+  pcs : List BPc                   -- one program point per thread
+  deriving DecidableEq, Repr
+
+inductive BEv
+  | load (t amount : Nat)
+  | cas (t : Nat)
+  deriving DecidableEq, Repr
+
+/-- **check, then add**: the limit is checked against the loaded value, the amount is then
+*added* to whatever the counter holds by now (seeded change C13-s1) -/
+def stepCheckThenAdd (b : B) : BEv → B
+  | .load t a => { b with pcs := b.pcs.set t (.first a b.usage) }
+  | .cas t =>
+    match b.pcs.getD t .idle with
+    | .first a cur => if cur + a > b.limit then { b with pcs := b.pcs.set t .idle }
+                      else { b with usage := b.usage + a, pcs := b.pcs.set t .idle }
+    | _ => b
+
+/-- **re-base without re-checking**: a thread that loses the compare-exchange gives up only if the
+observed usage is already at the limit; otherwise it takes the observed value over and its next
+compare-exchange adds the amount unchecked (seeded change C13-5) -/
+def stepRebase (b : B) : BEv → B
+  | .load t a => { b with pcs := b.pcs.set t (.first a b.usage) }
+  | .cas t =>
+    match b.pcs.getD t .idle with
+    | .first a cur =>
+      if cur + a > b.limit then { b with pcs := b.pcs.set t .idle }
+      else if b.usage = cur then { b with usage := cur + a, pcs := b.pcs.set t .idle }
+      else if b.usage ≥ b.limit then { b with pcs := b.pcs.set t .idle }
+      else { b with pcs := b.pcs.set t (.rebased a b.usage) }
+    | .rebased a cur =>
+      if b.usage = cur then { b with usage := cur + a, pcs := b.pcs.set t .idle }
+      else if b.usage ≥ b.limit then { b with pcs := b.pcs.set t .idle }
+      else { b with pcs := b.pcs.set t (.rebased a b.usage) }
+    | .idle => b
+
+def start : B := { usage := 0, limit := 10, pcs := [.idle, .idle, .idle] }
+
+/-- two writers of 6 under a limit of 10: both pass the check against 0, both add -/
+theorem check_then_add_exceeds :
+    ([.load 0 6, .load 1 6, .cas 0, .cas 1].foldl stepCheckThenAdd start).usage = 12 := by decide
+
+/-- three writers of 4 under a limit of 10: the third loses twice, sees 8 < 10, and adds -/
+theorem rebase_without_recheck_exceeds :
+    ([.load 0 4, .load 1 4, .load 2 4, .cas 0, .cas 1, .cas 1, .cas 2, .cas 2].foldl stepRebase start).usage = 12 := by decide
+
+/-- the loop as written refuses the third writer on the same schedule -/
+theorem same_schedule_is_refused :
+    let s0 : State := { limit := some 10 }
+    let evs : List Ev := [.load 0 4, .load 1 4, .load 2 4, .cas 0 false, .cas 1 false, .cas 1 false, .cas 2 false, .cas 2 false]
+    (run s0 (fun _ => .idle) evs).1.usage = 8 := by decide
+
+end Feox.Conc.Reserve.Broken
